@@ -307,12 +307,16 @@ impl Check for C19Check {
         let mut r = Rng::new(seed);
         let nf = r.usize(1, 4);
         let run_number = *r.pick(&[u32::MAX, u32::MAX, 11084, 11200, 9277, 10418]);
-        let mut serial = r.below(1000) as u32;
+        let mut serial = if index % 17 == 5 { u32::MAX - r.below(400) as u32 - 1000 } else { r.below(1000) as u32 };
         let mut files = Vec::new();
         let mut full_budget = if index % 3 == 0 { 2 } else { 0 };
         let bad_kinds = ["no_trg", "two_trg", "bad_trg", "unknown_bank", "bad_adc"];
         for _ in 0..nf {
-            let ne = match r.below(10) {
+            let ne = match if index % 149 == 11 && files.is_empty() { 10 } else { r.below(10) } {
+                // scale: more main events than a 16-bit counter (cheap light events only)
+                10 => {
+                    if tier == Tier::Thorough { 70_000 } else { 3_000 }
+                }
                 0 => 0,
                 1..=6 => r.usize(1, 15),
                 7..=8 => r.usize(15, 40),
@@ -321,7 +325,7 @@ impl Check for C19Check {
             let bad_rate = *r.pick(&[0u64, 5, 15, 40]);
             let mut events = Vec::new();
             for k in 0..ne {
-                serial += 1 + r.below(3) as u32;
+                serial = serial.wrapping_add(1 + r.below(3) as u32);
                 let kind = match r.below(100) {
                     0..=9 => "chrono",
                     10..=14 => "seq",
